@@ -25,5 +25,5 @@ Qed.
 From Coq Require Import List String.
 Import ListNotations.
 Lemma leaf_reads_strings :
-  L_strings_is_printable_ascii_args = ["byte : u8"%string].
+  L_strings_is_printable_ascii_args = ["arg1 : u8"%string].
 Proof. repeat split; reflexivity. Qed.
